@@ -53,6 +53,9 @@ where
 {
     fn zeroize(&mut self) {
         self.0 = <<C::Group as Group>::Field as Field>::zero();
+        // Prevent the store from being optimized away as a dead store (e.g.
+        // when called from a destructor, right before the storage is released).
+        core::hint::black_box(&mut self.0);
     }
 }
 
